@@ -666,10 +666,15 @@ TECHNIQUE = ("Lean 4 theorems about an executable model of _locate_config_dir / 
              "omitted argument), with a brute-force nearest-ancestor oracle and byte snapshots around init_project")
 LEVEL_TEXT = ("Proved in Lean for all trees and all query paths, no bound on depth or size: the upward search returns "
               "exactly the nearest project at or above the path (locate_nearest, getProject_nearest); search=False "
-              "returns a project iff the path itself is one (nosearch_exact); under the property's layout hypothesis "
-              "get_job returns exactly the innermost job directory containing the path together with the project whose "
-              "workspace holds it (getJob_innermost; the model scans for the id pattern anywhere in each component as "
-              "the code does); non-existent paths, nothing-above and id-less paths give LookupError and whatever is "
+              "returns a project iff the path itself is one (nosearch_exact); get_job (model: the code's finditer scan of every "
+              "component with the whole-component filter of fix F-19a, proved equal to 'the component IS an id': "
+              "complete_match_iff_idName, lastJob_simple) is characterised without any layout hypothesis "
+              "(getJob_characterised), never returns a job that is not an id-named directory at or above the path "
+              "(getJob_never_phantom), ignores names that merely contain an id-like run (getJob_ignores_lookalikes), and "
+              "under the layout hypothesis LayoutW - which constrains only names that ARE ids; strictly weaker than the "
+              "property's (lookTree_not_layout) - returns exactly the innermost job directory containing the path together "
+              "with the project whose workspace holds it (getJob_innermost; the clause 'an existing id-named path is a "
+              "directory' is needed: getJob_innermost_needs_iddir); non-existent paths, nothing-above and id-less paths give LookupError and whatever is "
               "returned is a project at or above the query (lookup_errors); init_project on an existing project performs "
               "no mutating step besides creating a missing workspace directory and never writes the configuration "
               "(initProject_idempotent, initProject_never_rewrites); init_project elsewhere writes the config once and "
